@@ -562,9 +562,12 @@ func (c *dxCall) gateDo(kind string) {
 		c.doOK = true
 	case "http1":
 		c.tr.resp.ProtoMajor, c.tr.resp.ProtoMinor = 1, 1
-		op = "AGateDo (DoResp None true)"
-		c.tainted = true
 		c.doOK = true
+		if c.stype == "bidi" {
+			// only bidi streams refuse an HTTP/1.x response
+			op = "AGateDo (DoResp None true)"
+			c.tainted = true
+		}
 	default:
 		c.doOK = true
 	}
